@@ -15,6 +15,10 @@ open Viv
 (`decide` over the table extracted from `vivarium/__init__.py`) -/
 theorem table_total : ∀ e ∈ Generated.dividerTable, (DFn.ofPyName e.2).isSome := by decide
 
+/-- the fallback names `Store._get_divider` uses in the source (extracted) are the ones the model
+falls back to (`VivModel/Store.lean`: `"set"` for values, `"null"` for processes) -/
+theorem default_dividers_as_in_source : Generated.getDividerConsts = ["set", "null"] := by decide
+
 example : (DFn.ofPyName "divide_split").isSome := by decide
 
 /-- each public name reaches the function the laws below are about -/
